@@ -34,6 +34,7 @@ package netflow5
 //@   modifies fr, r.data, r.count
 
 //@ func NewDecoder
+//@   opt borrows b
 //@   ensures result != nil && result.raddr == raddr && result.reader != nil && inv(result.reader)
 //@   ensures result.reader.base == b && result.reader.count == 0
 
@@ -57,6 +58,7 @@ package netflow5
 //@     decreases flowCount - flowIndex
 
 //@ func (*Decoder).Decode
+//@   opt borrows d
 //@   requires d.reader != nil && inv(d.reader) && d.reader.count == 0
 //@   ensures validV5(old(d.reader.base)) ==> result != nil && err == nil && hdrAt(result.Header, old(d.reader.base), 0)
 //@   ensures validV5(old(d.reader.base)) ==> len(result.Flows) == be16(old(d.reader.base), 2)
@@ -80,6 +82,7 @@ package netflow5
 //@ spec dotted4(a mathint) string = ipText4(a / 16777216, (a / 65536) % 256, (a / 256) % 256, a % 256)
 
 //@ func (*Message).JSONMarshal
+//@   opt borrows b
 //@   opt json
 //@   requires b != nil && b.js.Ph == 0 && b.js.Dp == 0 && jscanon(b.js) && jssafe(m.AgentID)
 //@   ensures [valid] err == nil ==> b.js.Ph == 8
